@@ -171,7 +171,9 @@ def getRStep (j : Json) : Except String Impl.RStep := do
 def rngMachine : Op := fun j => do
   let steps ← getList getRStep (← field j "history")
   let init ← getNat (fieldD j "init" (natToJson 1))
-  let (_, outs) := Impl.rrun lcg (fun xs => xs) steps init
+  -- when neither the data nor the noise-map uses the Poisson draws the output is a constant
+  let visible ← getBool (fieldD j "noise_visible" (Json.bool true))
+  let (_, outs) := Impl.rrun lcg (fun xs => if visible then xs else []) steps init
   pure (obj [("outputs", listToJson (optToJson natsToJson) outs)])
 
 def ops : List (String × Op) :=
